@@ -111,7 +111,7 @@ func planC04(w *World, spec RunSpec) {
 	w.drawFaultMix("err-before", "lost-response", "crash", "compaction", "duplicate")
 	w.Cfg.Faults["drift"] = true
 	w.Cfg.Ndist = 80 + s.Intn(400, "ndist")
-	w.Scenario = GenOS(w, OSProfile{MaxSets: 3, Delegation: true, Lifecycle: true, LateCreate: true, Intruder: "granular", Finalizers: true, NoForge: true})
+	w.Scenario = GenOS(w, OSProfile{MaxSets: 3, Delegation: true, Lifecycle: true, LateCreate: true, Intruder: "granular", Finalizers: true, NoForge: true, Recreate: true})
 	ensureTeardownOp(w)
 	w.StartProcesses()
 	w.Disturb(w.Cfg.Ndist)
@@ -188,7 +188,7 @@ func planC08(w *World, spec RunSpec) {
 	w.Cfg.Faults["drift"] = true
 	w.Cfg.Ndist = 150 + s.Intn(600, "ndist")
 	sliced := s.Chance(1, 3, "sliced")
-	w.Scenario = GenOD(w, ODProfile{MaxEdits: 5, Limits: true, NeverReady: !s.Chance(1, 4, "all-ready"), Delegation: s.Chance(1, 4, "delegation"), FinalDelete: true, Slices: sliced, SliceDrift: sliced && s.Bool("slice-drift")})
+	w.Scenario = GenOD(w, ODProfile{MaxEdits: 5, Limits: true, NeverReady: !s.Chance(1, 4, "all-ready"), Delegation: s.Chance(1, 4, "delegation"), FinalDelete: true, Slices: sliced, SliceDrift: sliced && s.Bool("slice-drift"), Pause: s.Chance(1, 3, "pause-ops")})
 	w.StartProcesses()
 	w.Disturb(w.Cfg.Ndist)
 	w.finish()
